@@ -402,7 +402,9 @@ func NewStack(cfg Config) (*Stack, error) {
 	ab.Config.Paths.TwoFactorEmailAuthNotOK = "/no/2faemail"
 
 	ab.Config.Modules.BCryptCost = 4
-	if cfg.LockAfter != 0 {
+	if cfg.LockAfter < 0 {
+		ab.Config.Modules.LockAfter = 0 // explicitly zero
+	} else if cfg.LockAfter != 0 {
 		ab.Config.Modules.LockAfter = cfg.LockAfter
 	}
 	if cfg.LockWindow != 0 {
@@ -541,6 +543,9 @@ func NewStack(cfg Config) (*Stack, error) {
 			guard = lock.Middleware(ab)(guard)
 		}
 		mux.Handle("/app/guard", guard)
+		// an application that wraps its whole tree serves the "not OK" landing pages behind the same middlewares
+		mux.Handle(ab.Config.Paths.ConfirmNotOK, guard)
+		mux.Handle(ab.Config.Paths.LockNotOK, guard)
 	}
 	var full http.Handler = http.HandlerFunc(s.probeHandler("full"))
 	full = authboss.Middleware2(ab, authboss.RequireFullAuth, cfg.ProtFail)(full)
